@@ -310,15 +310,16 @@ fn answer_inner(req: &str) -> String {
             let Some(w) = u32s(ws) else { return "bad-request".into() };
             let h = H::mk(&w).unwrap();
             let valid = guarded(|| h.is_valid());
-            let (vv, fc, plain) = match h {
-                H::T5(f) => (guarded(|| f.hand_rank_value_validated()), Some(guarded(|| ckc_rs::evaluate::five_cards(f.to_arr()))), guarded(|| f.hand_rank_value())),
-                H::T6(f) => (guarded(|| f.hand_rank_value_validated()), None, guarded(|| f.hand_rank_value())),
-                H::T7(f) => (guarded(|| f.hand_rank_value_validated()), None, guarded(|| f.hand_rank_value())),
+            let (vv, fc, plain, hrv) = match h {
+                H::T5(f) => (guarded(|| f.hand_rank_value_validated()), Some(guarded(|| ckc_rs::evaluate::five_cards(f.to_arr()))), guarded(|| f.hand_rank_value()), guarded(|| rank_str(f.hand_rank_validated()))),
+                H::T6(f) => (guarded(|| f.hand_rank_value_validated()), None, guarded(|| f.hand_rank_value()), guarded(|| rank_str(f.hand_rank_validated()))),
+                H::T7(f) => (guarded(|| f.hand_rank_value_validated()), None, guarded(|| f.hand_rank_value()), guarded(|| rank_str(f.hand_rank_validated()))),
                 _ => unreachable!(),
             };
             join([
                 fmt_opt(valid.map(|x| x as u8)),
                 fmt_opt(vv),
+                fmt_opt(hrv),
                 match fc { Some(x) => fmt_opt(x), None => "-".into() },
                 if valid == Some(true) { fmt_opt(plain) } else { "-".into() },
             ])
@@ -796,6 +797,30 @@ pub fn bit_sets(rng: &mut Rng, seeded: usize) -> Vec<u64> {
     v
 }
 
+/// texts with 50..140 card tokens (many repeats, some garbage), ending in a card that did not occur before
+pub fn long_card_texts(rng: &mut Rng, n: usize) -> Vec<String> {
+    let ranks: Vec<char> = "AKQJT98765432".chars().collect();
+    let suits: Vec<char> = "SHDC".chars().collect();
+    let mut out = vec![format!("{}KS", "AS ".repeat(52)), format!("{}2c", "AS KS ".repeat(40))];
+    for _ in 0..n {
+        let len = 50 + rng.below(90) as usize;
+        let pool = 1 + rng.below(30) as usize; // how many distinct cards the body draws from
+        let mut t = String::new();
+        for _ in 0..len {
+            let k = rng.below(pool as u64) as usize;
+            if rng.below(12) == 0 { t.push_str("xx "); }
+            t.push(ranks[k % 13]);
+            t.push(suits[(k / 13) % 4]);
+            t.push(' ');
+        }
+        let last = 51 - rng.below(10) as usize; // a card outside the pool (pool <= 30)
+        t.push(ranks[last % 13]);
+        t.push(suits[(last / 13) % 4]);
+        out.push(t);
+    }
+    out
+}
+
 fn cps(text: &str) -> String {
     join(text.chars().map(|c| c as u32))
 }
@@ -1022,7 +1047,7 @@ pub fn cases(prop: &str, thorough: bool, seed: u64, c: &mut Cases) {
                     // different slots, rewrites of the same word and writes of a neighbour's word all occur
                     let small = round % 2 == 0;
                     let word = |rng: &mut Rng| -> u32 {
-                        if small { [0u32, 1, 2, 268471337, 69634, u32::MAX][rng.below(6) as usize] } else { rng.next() as u32 }
+                        if small { [0u32, 1, 2, 268471337, 69634, u32::MAX, 268471337 | (1 << 29), 69634 | (3 << 30), 134253349 | (1 << 31)][rng.below(9) as usize] } else { rng.next() as u32 }
                     };
                     let init: Vec<u32> = (0..n).map(|_| word(&mut rng)).collect();
                     let len = 1 + rng.below(40);
@@ -1043,7 +1068,8 @@ pub fn cases(prop: &str, thorough: bool, seed: u64, c: &mut Cases) {
             }
             for n in 2..=7usize {
                 for k in 0..60 {
-                    let w: Vec<u32> = (0..n).map(|i| if k == 0 { 100 + i as u32 } else if k % 3 == 0 { [0u32, 1, u32::MAX][rng.below(3) as usize] } else { rng.next() as u32 }).collect();
+                    let deck = layout_deck();
+                    let w: Vec<u32> = (0..n).map(|i| if k == 0 { 100 + i as u32 } else if k % 3 == 0 { [0u32, 1, u32::MAX][rng.below(3) as usize] } else if k % 3 == 1 { deck[rng.below(52) as usize] | ((rng.below(8) as u32) << 29) } else { rng.next() as u32 }).collect();
                     c.emit(&format!("ctor{n}/every-constructor-and-default"), &format!("ctor {}", join(&w)));
                 }
             }
@@ -1106,6 +1132,10 @@ pub fn cases(prop: &str, thorough: bool, seed: u64, c: &mut Cases) {
                     t.push_str(seps[rng.below(seps.len() as u64) as usize]);
                 }
                 c.emit("bcidx/text", &format!("bcidx {}", cps(&t)));
+            }
+            // long texts: more tokens than there are cards, with repeats, a new card at the very end
+            for t in long_card_texts(&mut rng, if thorough { 400 } else { 60 }) {
+                c.emit("bcidx/long-text", &format!("bcidx {}", cps(&t)));
             }
         }
         "C16" => {
@@ -1725,9 +1755,29 @@ fn sweep_c20() -> Sweep {
         if m & 4 != 0 { x = x.flag_as_quads(); }
         x
     };
+    // marks applied in every order to every card (an order-dependent assertion shows here), under catch_unwind
+    for &w in &deck {
+        for seq in [[0u8, 1, 2], [0, 2, 1], [1, 0, 2], [1, 2, 0], [2, 0, 1], [2, 1, 0]] {
+            for len in 1..=3 {
+                s.evaluations += 1;
+                let got = guarded(|| {
+                    let mut x = w;
+                    for k in &seq[..len] {
+                        x = match k { 0 => x.flag_as_pair(), 1 => x.flag_as_trips(), _ => x.flag_as_quads() };
+                        x = match k { 0 => x.flag_as_pair(), 1 => x.flag_as_trips(), _ => x.flag_as_quads() };
+                    }
+                    (x, x.strip_multiples_flags())
+                });
+                let want_bits = seq[..len].iter().fold(0u32, |a, k| a | (1 << (29 + *k as u32)));
+                if got != Some((w | want_bits, w)) {
+                    s.fail("marking in some order (each mark applied twice) does not give the card with those marks / panics", &format!("{w} marks in order {:?}", &seq[..len]), &format!("{:?}", (w | want_bits, w)), &format!("{got:?}"));
+                }
+            }
+        }
+    }
     for &w in &deck {
         for m in 0u32..8 {
-            let x = mark(m, w);
+            let Some(x) = guarded(|| mark(m, w)) else { s.fail("marking panics", &format!("{w} marks {m}"), "returns", "panic"); continue; };
             s.evaluations += 1;
             s.nontrivial += 1;
             let same_fields = x.get_card_rank() == w.get_card_rank()
@@ -2910,6 +2960,15 @@ fn sweep_c15(seed: u64, thorough: bool) -> Sweep {
             s.fail("peel sequence is not 'members in deck order, then blank without changing the set'", &x.to_string(), &format!("{members:?} then 0 0"), &format!("{trace:?} final {cur}"));
         }
     }
+    for t in long_card_texts(&mut rng, if thorough { 4_000 } else { 400 }) {
+        s.evaluations += 1;
+        s.nontrivial += 1;
+        let want = spec_tokens(&t).iter().fold(0u64, |a, x| a | bit_of(spec_token(x)));
+        let got = guarded(|| <BinaryCard as BC64>::from_index(&t));
+        if got != Some(want) {
+            s.fail("set built from a long text is not the set of the cards its tokens name", &format!("{} tokens: {}...{}", spec_tokens(&t).len(), &t[..24.min(t.len())], &t[t.len().saturating_sub(12)..]), &want.to_string(), &format!("{got:?}"));
+        }
+    }
     s.rule = "hands of sizes 2..7 over {52 cards, blank} with repeats: from_n against the OR of the layout bit of every real card; structured (empty, full, singletons, rank groups, overflow bits, boundaries) and seeded 64-bit sets: fold_in, has, number_of_cards, is_single_card, is_valid against bit-level semantics and the full peel sequence (to exhaustion + 2) step by step; non-trivial = non-empty".into();
     let mut x = 0b1011u64;
     s.sample(format!("peel x4 from 0b1011: {:?} leaving {}", [x.peel(), x.peel(), x.peel(), x.peel()], x));
@@ -3098,7 +3157,7 @@ fn sweep_c19(seed: u64, thorough: bool) -> Sweep {
         for round in 0..(if thorough { 200_000 } else { 20_000 }) {
             let small = round % 2 == 1;
             let word = |rng: &mut Rng| -> u32 {
-                if small { [0u32, 1, 2, 268471337, 69634, u32::MAX][rng.below(6) as usize] } else { rng.next() as u32 }
+                if small { [0u32, 1, 2, 268471337, 69634, u32::MAX, 268471337 | (1 << 29), 69634 | (3 << 30), 134253349 | (1 << 31)][rng.below(9) as usize] } else { rng.next() as u32 }
             };
             let init: Vec<u32> = (0..n).map(|_| word(&mut rng)).collect();
             let mut model = init.clone();
